@@ -1,8 +1,9 @@
-\* quick: the whole bounded space, one tofile() per destination kind
+\* quick: the whole bounded space of (tensor, representation); one tofile() per destination kind for the ramp pattern (and empty tensors)
 CONSTANTS
   NSet = {0, 1, 2, 3, 4, 5, 6, 7, 8, 9}
   ClsSet = {"b2", "b4", "b8", "b16", "b32", "b64", "c64", "c128", "bool", "string"}
   MaxWrites = 1
+  WritePats = {"ramp"}
   EmitOn = TRUE
 INIT Init
 NEXT Next
